@@ -18,6 +18,8 @@
 From Coq Require Import NArith ZArith List Lia.
 From FatVerif Require Import Model.Base Model.Table Model.FileM Spec.ByteFile Spec.Image
   Model.Fat Proofs.ImageProofs Proofs.TableProofs Proofs.FatProofs Proofs.FileProofs Proofs.FileFatProofs.
+From FatVerif Require Import Spec.Abs Model.VolFile Proofs.VolFileProofs Proofs.VolFileExamples.
+From FatVerif Require Spec.Regions Model.Offsets Proofs.RegionsProofs.
 Open Scope N_scope.
 
 Theorem C02_image_write_frame : forall bs im off o,
@@ -296,6 +298,98 @@ Example C02_example_run16 :
   /\ bf_run ([], 0) ops rs = Some ([1; 2; 3; 4; 5], 3).
 Proof. vm_compute. repeat split. Qed.
 
+(* ---------------------------------------------------------------- the file layer over ONE device image
+   (Model/VolFile.v, Proofs/VolFileProofs.v; the decode side of these theorems is Props/C04.v, theorems C04_file_decodes_xxx).
+   The state of the image-level machine is (image, FS-info latch, handle): the FAT store is the FAT slice of the image
+   (all mirrored copies), the data of cluster c the bytes at g_cluster_off g c.  [VolInv g im fi h sz l] = the C02
+   invariants for the world read off the image, every byte < 256, no bad-cluster mark inside the chain [l].
+   The abstraction function is the INDEPENDENT DECODER's view: firstn sz (Abs.chain_bytes g im l). *)
+
+(* one step refines the byte-array machine; the invariant is kept; every cluster of the new chain was in the old chain
+   or free for the decoder; outside the mirrored FAT copies and the clusters of the new chain no byte of the image moves;
+   other files are not disturbed *)
+Theorem C02_image_step : forall g, vgeom_ok g -> forall im fi h sz l op,
+  op_ok op -> VolInv g im fi h sz l ->
+  exists im' fi' h' r sz' l', vol_step g (im, fi, h) op = ((im', fi', h'), r) /\
+    VolInv g im' fi' h' sz' l' /\
+    bf_step (firstn (N.to_nat sz) (chain_bytes g im l), h_off h) op r
+      = Some (firstn (N.to_nat sz') (chain_bytes g im' l'), h_off h') /\
+    (forall x, In x l' -> In x l \/ fat_val g im x = FFree) /\
+    (forall a, ~ in_store_area g a -> (forall c, In c l' -> ~ in_cluster g c a) -> img_get im' a = img_get im a) /\
+    (* several files: any OTHER file of the image with a disjoint chain keeps its invariant and its decoded content *)
+    (forall h2 sz2 l2, VFileInv g (world_of g im fi) h2 sz2 l2 -> NoBad g (world_of g im fi) l2 -> disjoint l l2 ->
+       VFileInv g (world_of g im' fi') h2 sz2 l2 /\ NoBad g (world_of g im' fi') l2 /\
+       firstn (N.to_nat sz2) (chain_bytes g im' l2) = firstn (N.to_nat sz2) (chain_bytes g im l2) /\ disjoint l' l2).
+Proof. exact vol_step_refines. Qed.
+
+(* the frame of a step through the region classifier of Spec/Regions.v (the extracted classifier that judges every device
+   write of the implementation in C11): a byte the step changes is "FAT copy k" (k < number of copies) or "cluster c" for a
+   cluster c that was in the file's chain or free for the decoder before the step *)
+Theorem C02_image_step_changes_classified : forall g, vgeom_ok g -> forall im fi h sz l op,
+  op_ok op -> VolInv g im fi h sz l ->
+  exists im' fi' h' r, vol_step g (im, fi, h) op = ((im', fi', h'), r) /\
+    forall m a, img_get im' a <> img_get im a ->
+      (exists k, k < g_fats g /\ Regions.classify g im m a = Regions.RFat k) \/
+      (exists c, (In c l \/ fat_val g im c = FFree) /\
+                 Regions.classify g im m a = Regions.RCluster c (Regions.cluster_owner g im m c)).
+Proof. exact vol_step_changes_classified. Qed.
+
+(* the data of cluster c is placed where the library's checked u32/u64 address arithmetic (Model/Offsets.v) puts it *)
+Theorem C02_image_data_offset_is_library : forall g c,
+  Offsets.ogeom_ok (RegionsProofs.ogeom_of g) -> 2 <= c < g_clusters g + 2 ->
+  Offsets.offset_from_cluster (RegionsProofs.ogeom_of g) c = Ok (g_cluster_off g c).
+Proof. exact data_offset_is_library. Qed.
+
+(* any history on a new file, on any image with a sane geometry, bytes < 256 and a consistent free-count latch *)
+Theorem C02_image_run_from_empty : forall g, vgeom_ok g -> forall ops im fi,
+  bytes_ok im -> fi_inv fstore (val_ft (ft_of g)) (store_of g im) fi (g_clusters g) -> Forall op_ok ops ->
+  exists im' fi' h' rs sz' l', vol_run g (im, fi, empty_file) ops = ((im', fi', h'), rs) /\
+    VolInv g im' fi' h' sz' l' /\
+    bf_run ([], 0) ops rs = Some (firstn (N.to_nat sz') (chain_bytes g im' l'), h_off h') /\
+    match h_first h' with
+    | Some f => forall fuel, (length l' <= fuel)%nat -> chain_from g im' f fuel = Some l'
+    | None => l' = []
+    end.
+Proof. exact vol_run_from_empty. Qed.
+
+(* every plain FileM step from ANY world embedded in an image ([Embeds], see Props/C04.v) can be replayed on the image:
+   [img_effect] = the table area of the new store (all mirrored copies), then the data bytes at their cluster offset *)
+Theorem C02_image_replay_step : forall g, vgeom_ok g -> forall im w h sz l op,
+  Embeds g im w -> VWorldInv g w -> VFileInv g w h sz l -> NoBad g w l ->
+  exists w' h' r sz' l',
+    file_step fstore (fat_get (ft_of g)) (fat_set (ft_of g)) (g_cluster_size g) (g_clusters g) w h op = (w', h', r) /\
+    VWorldInv g w' /\ VFileInv g w' h' sz' l' /\ NoBad g w' l' /\
+    bf_step (content fstore w l sz, h_off h) op r = Some (content fstore w' l' sz', h_off h') /\
+    Embeds g (img_effect g im w' h h' op r) w' /\
+    (forall x, In x l' -> In x l \/ fat_val g im x = FFree) /\
+    (forall a, ~ in_store_area g a -> (forall c, In c l' -> ~ in_cluster g c a) ->
+       img_get (img_effect g im w' h h' op r) a = img_get im a).
+Proof. exact embed_step. Qed.
+
+(* an embedded world with its invariants is a state of the image-level machine *)
+Theorem C02_image_embedded_state : forall g, vgeom_ok g -> forall im w h sz l,
+  bytes_ok im -> Embeds g im w -> VWorldInv g w -> VFileInv g w h sz l -> NoBad g w l ->
+  VolInv g im (w_fi fstore w) h sz l.
+Proof. exact embeds_vol_inv. Qed.
+
+(* non-vacuity: Proofs/VolFileExamples.v - a formatted 64-sector FAT12 image, 6 bytes written across clusters 2 and 3 *)
+Example C02_image_example_hyps :
+  vgeom_ok ex_g /\ bytes_ok ex_im /\ fi_inv fstore (val_ft (ft_of ex_g)) (store_of ex_g ex_im) ex_fi (g_clusters ex_g) /\
+  Forall op_ok ex_ops /\ Embeds ex_g ex_im (world_of ex_g ex_im ex_fi).
+Proof.
+  split; [exact ex_geom_ok|]. split; [exact ex_bytes_ok|]. split; [split; exact I|]. split; [exact ex_ops_ok|].
+  apply embeds_world_of.
+Qed.
+Example C02_image_example_replay :
+  let w := world_of ex_g ex_im ex_fi in
+  let '(w', h', rs) := file_run fstore (fat_get Fat12) (fat_set Fat12) 512 60 w empty_file ex_ops in
+  let im' := img_run ex_g ex_im w empty_file ex_ops in
+  rs = [RCount 509; RCount 3; RCount 3] /\
+  chain_from ex_g im' 2 (Abs.chain_fuel ex_g) = Some [2; 3] /\
+  skipn 509 (decode_file ex_g im' (first_field h') 515) = [1; 2; 3; 4; 5; 6] /\
+  img_read im' (1024 + 3) 3 = [3; 240; 255].
+Proof. exact ex_replay_decodes. Qed.
+
 Print Assumptions C02_image_write_frame.
 Print Assumptions C02_read_spec.
 Print Assumptions C02_seek_spec.
@@ -309,3 +403,9 @@ Print Assumptions C02_interleaved_refines.
 Print Assumptions C02_interleaved_refines_fat16.
 Print Assumptions C02_interleaved_refines_fat32.
 Print Assumptions C02_interleaved_refines_fat12.
+Print Assumptions C02_image_step.
+Print Assumptions C02_image_step_changes_classified.
+Print Assumptions C02_image_data_offset_is_library.
+Print Assumptions C02_image_run_from_empty.
+Print Assumptions C02_image_replay_step.
+Print Assumptions C02_image_embedded_state.
